@@ -30,7 +30,7 @@
 (***************************************************************************)
 EXTENDS Integers, Sequences, FiniteSets, TLC, Json
 
-CONSTANTS MaxRunes, Use, BufInit, UTFMax, PinGrow, Emit      \* Use: the rune classes strings are made of
+CONSTANTS MaxRunes, MaxCalls, Use, BufInit, UTFMax, PinGrow, Emit      \* Use: the rune classes strings are made of
 
 \* rune classes: name, width, width of the upper-case form, changed by upper-casing
 Classes == << [n |-> "a",  w |-> 1, uw |-> 1, ch |-> TRUE],     \* a -> A
@@ -77,7 +77,7 @@ Call(s) ==
           IN /\ overrun' = st.bad
              /\ buflen' = st.len /\ retlen' = st.n /\ offs' = st.offs
 
-Next == ~overrun /\ calls < 3 /\ \E s \in Strs : Call(s)
+Next == ~overrun /\ calls < MaxCalls /\ \E s \in Strs : Call(s)
 Spec == Init /\ [][Next]_vars
 
 NoOverrun == ~overrun
